@@ -335,7 +335,8 @@ func init() {
 // C13 — code that is not a generator is behaviourally unchanged.
 func C13(tier string) *core.Report {
 	r := core.NewReport("C13", tier)
-	fams := []*FamilySpec{etaFamily(tier), bystanderFamily(tier), bystander2Family(tier), bystander3Family(tier), importFamily(tier)}
+	// ITYPE: plain code that holds, passes and converts values of the API type (and a foreign type that is merely named Iter)
+	fams := []*FamilySpec{etaFamily(tier), bystanderFamily(tier), bystander2Family(tier), bystander3Family(tier), importFamily(tier), itypeFamily(tier)}
 	for _, fr := range runFamilies(r, fams, tier) {
 		for _, f := range fr.Divergences("lockstep", "panic", "lockstep-under-panic", "fatal", "nondet", "nondet-ref") {
 			r.Fail(f)
